@@ -260,6 +260,31 @@ def fam_pairs(ctx, rng):
         da, db = a.distance_to_point(P2(q2)), b.distance_to_point(q3)
         if abs(da - db) > TOL * scale:
             ctx.violation('%s:distance_to_point' % kind, '2D %r vs 3D %r' % (da, db), desc)
+    if kind in ('segment', 'ray'):
+        # another line at a small angle to this one, starting a small distance off it: is_parallel / is_colinear with the distance
+        # tolerance and the (optional) angle tolerance given separately, below / between / above the actual angle and distance
+        L = math.hypot(a.v.x, a.v.y)
+        if L > 1e-6:
+            ux, uy = a.v.x / L, a.v.y / L
+            ang = rng.choice([0.0, 0.003, 0.005, 0.05, 0.1]) * rng.choice([1, -1]); dist_ = rng.choice([0.0, 0.003, 0.0003, 0.3])
+            t_ = rng.uniform(-1, 2) * L
+            p2_ = (a.p.x + ux * t_ - uy * dist_, a.p.y + uy * t_ + ux * dist_)
+            v2_ = (math.cos(ang) * ux - math.sin(ang) * uy, math.sin(ang) * ux + math.cos(ang) * uy)
+            k2 = rng.uniform(0.5, 3) * rng.choice([1, -1])
+            cls2, cls3 = (LineSegment2D, LineSegment3D) if rng.random() < 0.5 else (Ray2D, Ray3D)
+            o2 = cls2(P2(p2_), V2((v2_[0] * k2, v2_[1] * k2)))
+            o3 = cls3(pl.xy_to_xyz(P2(p2_)), V3(tuple(o2.v.x * pl.x[i] + o2.v.y * pl.y[i] for i in range(3))))
+            for tol_, atol_ in ((0.5, 0.01), (0.001, 0.0175), (0.01, None), (0.01, 0.01), (0.001, 0.2)):
+                if min(abs(abs(ang) - (atol_ if atol_ is not None else tol_)), abs(dist_ - tol_)) < 1e-4 or (atol_ is None and abs(abs(ang) - tol_) < 1e-4):
+                    continue        # too close to a threshold to demand agreement
+                ra, rb = a.is_colinear(o2, tol_, atol_), b.is_colinear(o3, tol_, atol_)
+                ctx.count('pair.%s' % kind, key=(fk, 'is_colinear', atol_ is None))
+                if ra != rb:
+                    ctx.violation('%s:is_colinear' % kind, 'is_colinear(other, %r, %r) with the other line %r rad and %r off: 2D %r, 3D %r' % (
+                        tol_, atol_, ang, dist_, ra, rb), dict(desc, other=o2.to_dict(), tolerance=tol_, angle_tolerance=atol_)); break
+                if atol_ is not None and a.is_parallel(o2, atol_) != b.is_parallel(o3, atol_):
+                    ctx.violation('%s:is_parallel' % kind, 'is_parallel(other, %r) at %r rad: 2D %r, 3D %r' % (atol_, ang, a.is_parallel(o2, atol_), b.is_parallel(o3, atol_)),
+                                  dict(desc, other=o2.to_dict(), angle_tolerance=atol_)); break
     if kind in ('segment', 'arc'):
         for n in (rng.choice([1, 2, 3, 7, 9, 11, 20, 21, 25]), rng.randint(1, 300)):
             sa, sb = a.subdivide_evenly(n), b.subdivide_evenly(n)
